@@ -15,7 +15,9 @@ inline.content untouched, smartquotes-only text related by QuoteRel (a DP).
 from __future__ import annotations
 
 import copy
+import html as htmlmod
 import importlib
+import re
 
 from .common import Ctx, Driver, Finding, enc
 from . import gens
@@ -30,7 +32,10 @@ RULE = (
 
 AL = ["'", '"', "a", "b", " ", ".", ",", "*", "_", "`", "\n", "1", "-", "(", ")", "\\'", "\\\"", "&quot;", "&#39;", "[", "](u)",
       "<http://x'y>", "é", "!", "--", "---", "...", "(c)", "(TM)", "+-", "??", "'s", "\"q\"", "'q'", "\\\n", "`'c'`", "<b>",
-      "![i'](s)", "[l'](u \"t'\")", "**", "«", " ", "0\"", "’"]
+      "![i'](s)", "[l'](u \"t'\")", "**", "«", " ", "0\"", "’",
+      # letters of the replaceable patterns written as character references / escapes, next to protected literals
+      "(&#99;)", "(&#x43;)", "(&#116;m)", "(t&#109;)", "(&#82;)", "(&#x72;)", "`(c)`", "`(tm)`", "\\(c)", "(c\\)", "&#40;c)", "+&#45;", "&#46;..", "-&#45;",
+      "<!-- (c) -->", "`(r)`"]
 QS = ["“”‘’", "«»„“", ["<<", ">>", "<", ">"], ["", "", "", ""], ["«\xa0", "\xa0»", "‹\xa0", "\xa0›"], ["abc", "d", "", "efgh"],
       "\"\"''"]
 
@@ -127,6 +132,7 @@ def run(ctx: Ctx) -> None:
     drv = Driver()
     try:
         lines, exp, meta = [], [], []
+        opq = {}
         md0 = MarkdownIt("js-default")
         for it in range(n):
             if rng.random() < 0.8:
@@ -147,6 +153,30 @@ def run(ctx: Ctx) -> None:
             ch = compare(ctx, s, preset, qs, rules, flat(boxo["pre"]), flat(boxn["pre"]), "before text_join", info)
             ch2 = compare(ctx, s, preset, qs, rules, flat(A), flat(B), "final stream", info)
             ctx.count((s, tuple(rules), str(qs), preset), nontrivial=bool(ch or ch2))
+            # opacity: a character written as a numeric reference is invisible to the replacements rule — rendering with every
+            # such reference pointed at U+E000 instead, then putting the original characters back, gives the same output
+            if "&#" in s and "replacements" in rules:
+                refs = list(re.finditer(r"&#(?:[xX]([0-9a-fA-F]{1,6})|([0-9]{1,7}));", s))
+                origs = []
+                for m_ in refs:
+                    cp = int(m_.group(1), 16) if m_.group(1) else int(m_.group(2))
+                    origs.append(chr(cp) if 0x20 < cp < 0x7f else None)
+                if refs and all(o is not None for o in origs) and "\ue000" not in s:
+                    s2 = re.sub(r"&#(?:[xX][0-9a-fA-F]{1,6}|[0-9]{1,7});", "&#xE000;", s)
+                    try:
+                        mdr = opq.get(preset)
+                        if mdr is None:
+                            mdr = opq[preset] = MarkdownIt(preset, {"typographer": True}).disable("smartquotes")
+                        o1, o2 = mdr.render(s), mdr.render(s2)
+                    except Exception:
+                        o1 = o2 = None
+                    if o2 is not None and o2.count("\ue000") == len(origs):
+                        it_ = iter(origs)
+                        back = re.sub("\ue000", lambda _m: {"&": "&amp;", "<": "&lt;", ">": "&gt;", '"': "&quot;"}.get((c_ := next(it_)), c_), o2)
+                        ctx.count((s, "opacity", preset), nontrivial=True)
+                        if back != o1:
+                            ctx.fail("entity-rewritten", "a character written as a numeric reference took part in a typographic replacement",
+                                     {"input": s, "preset": preset, "rules": ["replacements"], "with_refs": o1[:300], "opaque_twin": back[:300]})
             if len(ctx.samples) < 3 and ch2:
                 ctx.sample({"input": s[:60], "quotes": str(qs), "rules": rules})
             # tie: process_inlines on the children of the first inline token
